@@ -169,6 +169,7 @@ Inductive op :=
                                  (* instance i: store_feature(feat, data); isint: integer array *)
 | OCopy                          (* rtdc_copy into a new file (compress, repack, ...) *)
 | ODrop (mn mx me : bool)        (* a file whose dataset lacks some summary attributes *)
+| OClose                         (* every writer instance is closed *)
 | ORaw (dt : dtk) (data : list fv).
                                  (* a new file whose dataset was written without the writer
                                     (recording software, plain h5py): no summaries *)
@@ -208,6 +209,7 @@ Definition step (forced : option dtk) (s : state) (o : op) : state :=
           let '(d, e) := write old dt0 cache data in
           {| insts := set_inst i (m, Some e) (insts s); ds := Some d |}
       end
+  | OClose => {| insts := []; ds := ds s |}
   | OCopy => {| insts := []; ds := option_map copy (ds s) |}
   | ODrop mn mx me =>
       {| insts := [];
@@ -261,6 +263,19 @@ Fixpoint select {A} (filt : list bool) (l : list A) : list A :=
 Definition child_min (filt : list bool) (d : sdset) : fv := nanmin_l (select filt (d_vals d)).
 Definition child_max (filt : list bool) (d : sdset) : fv := nanmax_l (select filt (d_vals d)).
 Definition child_mean (filt : list bool) (d : sdset) : mv := nanmean_l (select filt (d_vals d)).
+
+(* ---- scalar features that are plain numpy arrays ------------------------------------ *)
+(* ancillary and temporary features and the features of dict/tdms datasets are
+   numpy.ndarray objects: their .min()/.max()/.mean() are numpy's NaN-
+   propagating methods (known finding C20-ndarray-summaries-propagate-nan) *)
+Definition npmin2 (a b : fv) : fv :=
+  if isnan a || isnan b then NaN else if fle a b then a else b.
+Definition npmax2 (a b : fv) : fv :=
+  if isnan a || isnan b then NaN else if fle a b then b else a.
+Definition npmin_l (l : list fv) : fv :=
+  match l with [] => NaN | x :: r => fold_left npmin2 r x end.
+Definition npmax_l (l : list fv) : fv :=
+  match l with [] => NaN | x :: r => fold_left npmax2 r x end.
 
 (* ---- chunk-wise reduction -------------------------------------------------------- *)
 (* a reader that walks over the HDF5 chunks of a dataset instead of loading
@@ -428,7 +443,7 @@ Definition spec_step (forced : option dtk) (st : list (Z * Z) * option (dtk * li
           end
       end
   | ORaw dt data => ([], Some (dt, map (cast dt) data))
-  | OCopy | ODrop _ _ _ => ([], acc)
+  | OClose | OCopy | ODrop _ _ _ => ([], acc)
   end.
 Definition spec_vals (forced : option dtk) (ops : list op) : option (dtk * list fv) :=
   snd (fold_left (spec_step forced) ops ([], None)).
@@ -453,13 +468,14 @@ Definition dt_of (c : Z) : dtk :=
 
 (* (tag, a, b, data): 0 open (instance a, mode b); 1 write (instance a, b=1:
    integer array); 2 copy; 3 drop (a: bits min, max, mean); 4 raw
-   (a: dtype code) *)
+   (a: dtype code); 5 close all writers *)
 Definition dec_op (t : Z * Z * Z * list (Z * Z)) : op :=
   let '(tag, a, b, data) := t in
   if tag =? 0 then OOpen a b
   else if tag =? 1 then OWrite a (b =? 1) (map dec data)
   else if tag =? 2 then OCopy
   else if tag =? 4 then ORaw (dt_of a) (map dec data)
+  else if tag =? 5 then OClose
   else ODrop (Z.odd a) (Z.odd (a / 2)) (Z.odd (a / 4)).
 
 Definition enc_fv (v : fv) : list Z :=
@@ -480,17 +496,19 @@ Definition enc_o {A} (enc : A -> list Z) (o : option A) : list Z :=
   match o with Some a => 1 :: enc a | None => [0] end.
 
 (* case: forced dtype code of the feature (0 none) and the history.
-   result: length, reported min/max/mean, the stored attributes themselves,
+   result: the guard hist_ok, length, the stored values, reported min/max/mean, the stored attributes themselves,
    the summaries of a child keeping every second event and of the feature
    seen through a mapped basin *)
 Definition run_flat (case : Z * list (Z * Z * Z * list (Z * Z))) : list Z :=
   let '(fc, tops) := case in
   let forced := if fc =? 0 then None else Some (dt_of fc) in
-  match ds (run forced init (map dec_op tops)) with
+  let ops := map dec_op tops in
+  (if hist_ok forced init ops then 1 else 0) ::
+  match ds (run forced init ops) with
   | None => [-1]
   | Some d =>
       let filt := map (fun i => Nat.even i) (seq 0 (length (d_vals d))) in
-      Z.of_nat (length (d_vals d)) :: enc_fv (rep_min d) ++ enc_fv (rep_max d) ++ enc_mv (rep_mean d)
+      Z.of_nat (length (d_vals d)) :: flat_map enc_fv (d_vals d) ++ enc_fv (rep_min d) ++ enc_fv (rep_max d) ++ enc_mv (rep_mean d)
       ++ enc_o enc_fv (a_min d) ++ enc_o enc_fv (a_max d) ++ enc_o enc_mv (a_mean d)
       ++ enc_fv (child_min filt d) ++ enc_fv (child_max filt d) ++ enc_mv (child_mean filt d)
       ++ flat_map (fun w => enc_q (basin_q (basin_map_of (length (d_vals d))) d w)) [0; 1; 2]
@@ -522,3 +540,7 @@ Definition basin_flat (case : list (Z * Z) * list Z * list Z) : list Z :=
   flat_map (fun r : bool * qres => enc_q (snd r))
            (hrun_out (binit bm (map dec vals))
                      (map (fun t => if t =? 3 then HRead else HQuery t) tops)).
+
+(* ndarray-valued scalar features: min and max of the values, NaN-propagating *)
+Definition ndarray_flat (vals : list (Z * Z)) : list Z :=
+  enc_fv (npmin_l (map dec vals)) ++ enc_fv (npmax_l (map dec vals)).
